@@ -48,7 +48,7 @@ VARIANTS = {
   fault('quote-loop-no-consume', F(BT, 'Quote.read', "            next(lines)\n            next_line = lines.peek()\n", "            next_line = lines.peek()\n"), 'R-CTOR-TOTAL'),
   fault('scanner-loop-no-increment', F(CT, 'find_core_tokens', "        else:\n            escaped = False\n        i += 1\n", "        else:\n            escaped = False\n"), 'R-LOOP'),
   fault('heading-attr-not-assigned', F(BT, 'Heading.__init__', 'self.level, content, self.closing_sequence = match', 'self.level, content, _ = match'), 'R-RENDER-TOTAL'),
-  fault('image-title-conditional', F(ST, 'Image.__init__', '        self.title = EscapeSequence.strip(match.group(3))\n', "        if match.group(3):\n            self.title = EscapeSequence.strip(match.group(3))\n"), 'R-RENDER-TOTAL'),
+  fault('image-title-conditional', F(ST, 'Image.__init__', '            self.title = EscapeSequence.strip(match.group(3))\n', "            if match.group(3):\n                self.title = EscapeSequence.strip(match.group(3))\n"), 'R-RENDER-TOTAL'),
  ],
  'C03': [
   fault('listitem-drop-backstep', F(BT, 'ListItem.read', "                if newline_count:\n                    lines.backstep()\n                    del line_buffer[-newline_count:]\n                break\n",
@@ -100,6 +100,8 @@ VARIANTS = {
   fault('opener-bound-per-character', F(CT, 'process_emphasis', 'closer_kind = (closer.type[0], closer.origin_number % 3, closer.open)', 'closer_kind = closer.type[0]'), 'R-STACK-SIM'),
   fault('stale-opener-bounds', F(CT, 'process_emphasis', "                if bound is not None and bound > top:\n                    openers_bottom[kind] = top if top >= 0 else None\n", "                pass\n"), 'R-STACK-SIM'),
   fault('closer-not-reexamined', F(CT, 'process_emphasis', "            if not closer.open:\n                delimiters.remove(closer)\n            else:\n                curr_pos += 1", "            if not closer.open:\n                delimiters.remove(closer)\n            curr_pos += 1"), 'R-STACK-SIM'),
+  fault('opener-search-ignores-stack-bottom', F(CT, 'process_emphasis', 'bottom = openers_bottom.get(closer_kind, stack_bottom)', 'bottom = openers_bottom.get(closer_kind, None)'), 'R-STACK-SIM'),
+  fault('link-text-keeps-delimiters', F(CT, 'process_emphasis', '    del delimiters[stack_bottom:]', '    del delimiters[(stack_bottom or 0) + 1:]'), 'R-STACK-SIM'),
   fault('remove-keeps-prefix', F(CT, 'Delimiter.remove', 'self.type = self.type[:-n]', 'self.type = self.type[:n]'), 'R-INV-DELIM'),
   fault('remove-left-number', F(CT, 'Delimiter.remove', "            self.start = self.start + n\n            self.number = self.end - self.start\n",
                                 "            self.start = self.start + n\n            self.number = self.number - 1\n"), 'R-INV-DELIM'),
